@@ -1127,13 +1127,28 @@ func runEmptyTokenFilter(p *Prog, r *Report) {
 					} else if k, ok := constInt(x.X); ok && k == 0 {
 						o = x.Y
 					}
-					if cl, ok := o.(*ssa.Call); ok {
-						if bi, ok := cl.Call.Value.(*ssa.Builtin); ok && bi.Name() == "len" && len(cl.Call.Args) == 1 {
-							if _, fv := loadedField(cl.Call.Args[0]); fv != nil {
-								lens[fv.Name()] = true
-								return
-							}
+					// a length, or a sum of lengths (non-negative terms: the sum is zero exactly when all are)
+					var terms func(v ssa.Value, d int) bool
+					terms = func(v ssa.Value, d int) bool {
+						if d > 4 || v == nil {
+							return false
 						}
+						if cl, ok := v.(*ssa.Call); ok {
+							if bi, ok := cl.Call.Value.(*ssa.Builtin); ok && bi.Name() == "len" && len(cl.Call.Args) == 1 {
+								if _, fv := loadedField(cl.Call.Args[0]); fv != nil {
+									lens[fv.Name()] = true
+									return true
+								}
+							}
+							return false
+						}
+						if ad, ok := v.(*ssa.BinOp); ok && ad.Op == token.ADD {
+							return terms(ad.X, d+1) && terms(ad.Y, d+1)
+						}
+						return false
+					}
+					if terms(o, 0) {
+						return
 					}
 					other = append(other, x.String())
 				default:
